@@ -18,7 +18,7 @@ type C12Case struct {
 	Body   []*S `json:"body"`   // call sites, written with M = "local"
 }
 
-var c12Forms = []string{"local", "self", "import", "from", "alias"}
+var c12Forms = []string{"local", "self", "import", "from", "alias", "fromonly"}
 
 func retarget(body []*S, form string) []*S {
 	out := cloneBodyNoMerge(body)
@@ -64,6 +64,33 @@ func c12Set(c C12Case, form string) TSet {
 		main.Body = append(main.Body, cloneBodyNoMerge(c.Macros)...)
 	case "import":
 		main.Body = append(main.Body, &S{K: "import", E: Str("lib"), Name: "lib"})
+	case "fromonly":
+		// only the macros the call sites name are imported; the helpers they call are not
+		used := map[string]bool{}
+		var scan func(b []*S)
+		scan = func(b []*S) {
+			for _, st := range b {
+				if st.E != nil && st.E.K == "mcall" {
+					used[st.E.S] = true
+				}
+				scan(st.Body)
+				scan(st.Else)
+				for _, bb := range st.Bodies {
+					scan(bb)
+				}
+			}
+		}
+		scan(c.Body)
+		s := &S{K: "from", E: Str("lib")}
+		for _, m := range c.Macros {
+			if used[m.Name] {
+				s.Imports = append(s.Imports, Import{Name: m.Name})
+			}
+		}
+		if len(s.Imports) > 0 {
+			main.Body = append(main.Body, s)
+		}
+		form = "from"
 	case "from", "alias":
 		s := &S{K: "from", E: Str("lib")}
 		for _, m := range c.Macros {
